@@ -286,7 +286,7 @@ theorem put_app' (w : W) (r : Bytes) (l : List Bytes) (off : Nat) (v : Bytes) (h
 
 /-- Encode on a healthy writer, in terms of the raw printer -/
 theorem encode_raw (p : EncParam) (w : W) (hb : w.broken = false) :
-    if rawSize p > Facts.ttMaxHeaderSize then encode p w = .err .size
+    if rawSize p % 2 ^ Facts.ttEncodeSizeCheckBits > Facts.ttMaxHeaderSize then encode p w = .err .size
     else ∃ L, encode p w = .ok (w.n, w.app (metaBytes p w (rawSize p) :: L)) ∧
       L.flatten = rawInfo p ++ List.replicate ((4 - (rawInfo p).length % 4) % 4) 0 := by
   unfold encode
@@ -314,7 +314,7 @@ theorem encode_raw (p : EncParam) (w : W) (hb : w.broken = false) :
       = rawSize p := by
     simp only [rawSize, hlen, List.length_append, List.length_replicate]; omega
   rw [hsz]
-  by_cases hbig : rawSize p > Facts.ttMaxHeaderSize
+  by_cases hbig : rawSize p % 2 ^ Facts.ttEncodeSizeCheckBits > Facts.ttMaxHeaderSize
   · simp only [hbig, if_true]
   · simp only [hbig, if_false, W.app_app, List.cons_append, List.nil_append]
     rw [put_app' w _ _ 12 (be16 ((rawSize p / 4) % 65536))
